@@ -52,20 +52,15 @@ SymLen(c) == CASE c \in {"w_amp", "w_10", "w_13"} -> 3
                [] c \in {"w_quot", "w_apos"} -> 4
                [] OTHER -> 1
 
-RECURSIVE Flatten(_)                      \* concatenation of a sequence of strings (divide and conquer:
-Flatten(ss) == IF Len(ss) = 0 THEN <<>>   \*  recursion depth log n -- TLC's Java stack is small)
-               ELSE IF Len(ss) = 1 THEN ss[1]
-               ELSE LET m == Len(ss) \div 2
-                    IN Flatten(SubSeq(ss, 1, m)) \o Flatten(SubSeq(ss, m + 1, Len(ss)))
-RECURSIVE SumSeq(_)
-SumSeq(ns) == IF Len(ns) = 0 THEN 0
-              ELSE IF Len(ns) = 1 THEN ns[1]
-              ELSE LET m == Len(ns) \div 2 IN SumSeq(SubSeq(ns, 1, m)) + SumSeq(SubSeq(ns, m + 1, Len(ns)))
+\* FoldLeft (SequencesExt) is implemented in Java in TLC: no TLA+-level recursion over the
+\* characters of a string (TLC's Java stack is small, its interpreter slow)
+Flatten(ss) == FoldLeft(LAMBDA acc, x : acc \o x, <<>>, ss)      \* concatenation of a sequence of strings
+SumSeq(ns) == FoldLeft(LAMBDA acc, x : acc + x, 0, ns)
 
 RawLen(s) == SumSeq([i \in DOMAIN s |-> SymLen(s[i])])    \* len() of the Python string s stands for
 Has(s, c) == \E i \in DOMAIN s : s[i] = c
 
-\* str.replace(c, r) for a one-character c
+\* str.replace(c, r): all non-overlapping occurrences, left to right, the result is not rescanned
 Replace(s, c, r) == Flatten([i \in DOMAIN s |-> IF s[i] = c THEN r ELSE <<s[i]>>])
 
 Ref(w) == <<"amp", w, "semi">>            \* the characters  & w ;
@@ -108,13 +103,16 @@ Ok(v) == [ok |-> TRUE, v |-> v]
 \* character data / attribute value content after EOL handling.  '<' is markup, '&' must start a
 \* well-formed reference  & name ;  whose character is taken literally (it is NOT normalised again);
 \* in attribute values a literal TAB / LF becomes a space (3.3.3)
-IsRefAt(s, i) == s[i] = "amp" /\ i + 2 <= Len(s) /\ s[i + 1] \in Words /\ s[i + 2] = "semi"
 DecodeAt(s, i, attr) ==
     LET c == s[i] IN
-    IF c = "lt" THEN <<"ERR">>
-    ELSE IF c = "amp" THEN (IF IsRefAt(s, i) THEN <<RefChar(s[i + 1])>> ELSE <<"ERR">>)
-    ELSE IF (i > 1 /\ IsRefAt(s, i - 1)) \/ (i > 2 /\ IsRefAt(s, i - 2)) THEN <<>>    \* inside a reference
-    ELSE IF attr /\ c \in {"lf", "tab"} THEN <<"sp">>
+    IF c = "amp" THEN (IF i + 2 <= Len(s) /\ s[i + 1] \in Words /\ s[i + 2] = "semi"
+                       THEN <<RefChar(s[i + 1])>> ELSE <<"ERR">>)
+    ELSE IF c \in Words THEN (IF i > 1 /\ i < Len(s) /\ s[i - 1] = "amp" /\ s[i + 1] = "semi"
+                              THEN <<>> ELSE <<c>>)                       \* the name of a reference
+    ELSE IF c = "semi" THEN (IF i > 2 /\ s[i - 2] = "amp" /\ s[i - 1] \in Words
+                             THEN <<>> ELSE <<c>>)                        \* the end of a reference
+    ELSE IF c = "lt" THEN <<"ERR">>
+    ELSE IF attr /\ (c = "lf" \/ c = "tab") THEN <<"sp">>
     ELSE <<c>>
 Decode(s, attr) == LET r == Flatten([i \in DOMAIN s |-> DecodeAt(s, i, attr)])
                    IN IF Has(r, "ERR") THEN Err ELSE Ok(r)
@@ -210,6 +208,9 @@ Ctl == [stack |-> stack, ctxs |-> ctxs, indent |-> indent, root |-> root, misuse
 Ctl0 == [stack |-> <<>>, ctxs |-> <<>>, indent |-> 0, root |-> 0, misuse |-> FALSE]
 
 Floor(c) == IF c.ctxs = <<>> THEN 0 ELSE Last(c.ctxs).h
+\* leaving the n innermost with-blocks runs pop_tag() n times: each pops its own element iff
+\* nothing pushed by hand inside any of them is still open
+OwnOnTop(c, n) == \A j \in 1..n : c.ctxs[Len(c.ctxs) - j + 1].h = Len(c.stack) - j + 1
 CanElem(c) == c.stack # <<>> \/ c.root = 0          \* an XML document has exactly one document element
 MarkupFree(t) == \A i \in DOMAIN t : t[i] \notin {"lt", "gt", "amp", "cr"}
 
@@ -219,9 +220,9 @@ Enabled(c, op) ==
     CASE op.k \in {"push", "enter", "tag"} -> CanElem(c)
       [] op.k = "pop"     -> Len(c.stack) > Floor(c)
       [] op.k = "exit"    -> c.ctxs # <<>> /\ Len(c.stack) >= Floor(c) /\ Len(c.stack) >= 1
-                             /\ (AllowMisuse \/ Len(c.stack) = Floor(c))
+                             /\ (AllowMisuse \/ OwnOnTop(c, 1))
       [] op.k = "raise"   -> op.n >= 1 /\ op.n <= Len(c.ctxs) /\ Len(c.stack) >= op.n
-                             /\ (AllowMisuse \/ Len(c.stack) = Floor(c))
+                             /\ (AllowMisuse \/ OwnOnTop(c, op.n))
       [] op.k = "comment" -> TRUE
       [] op.k = "line"    -> c.stack # <<>> /\ (op.esc \/ MarkupFree(ABS(op.text)))   \* no text outside the root
       [] OTHER -> FALSE
@@ -230,7 +231,7 @@ Enabled(c, op) ==
 PopN(c, n) == [c EXCEPT !.stack = SubSeq(@, 1, Len(@) - n), !.indent = @ - 2 * n,
                         !.root = IF Len(c.stack) = n THEN 2 ELSE @]
 LeaveN(c, n) == [PopN(c, n) EXCEPT !.ctxs = SubSeq(@, 1, Len(@) - n),
-                                   !.misuse = @ \/ Len(c.stack) # Floor(c)]
+                                   !.misuse = @ \/ ~OwnOnTop(c, n)]
 Opened(c, op) == [c EXCEPT !.stack = Append(@, op.name), !.indent = @ + 2,
                            !.root = IF c.stack = <<>> THEN 1 ELSE @]
 
